@@ -100,6 +100,37 @@ func (m *monitors) swapNote() string {
 	return ""
 }
 
+// electionFacts lists what was unusual about the elections of a shard (for end-of-run oracles, whose
+// findings are consequences of an election that happened earlier).  Takes mu.
+func (m *monitors) electionFacts(shard int64) string {
+	m.mu.Lock()
+	defer m.mu.Unlock()
+	return m.electionFactsLocked(shard, -1)
+}
+
+// electionFactsLocked: mu held; skip leaves out the note of one term (already quoted by the caller).
+func (m *monitors) electionFactsLocked(shard, skip int64) string {
+	var terms []int64
+	for t := range m.electionNote[shard] {
+		terms = append(terms, t)
+	}
+	sort.Slice(terms, func(i, j int) bool { return terms[i] < terms[j] })
+	var out []string
+	for _, t := range terms {
+		n := m.electionNote[shard][t]
+		if t == skip {
+			continue
+		}
+		if strings.Contains(n, "was ignored") || strings.Contains(n, "NOT a majority") || strings.Contains(n, "did not count when the leader was chosen") {
+			out = append(out, n)
+		}
+	}
+	if len(out) == 0 {
+		return ""
+	}
+	return " (unusual elections of this shard: " + strings.Join(out, " | ") + ")"
+}
+
 func (m *monitors) fail(prop, class, f string, a ...any) {
 	if m.c.r.Opts["monitors"] == "off" { // sensitivity experiments: let the history oracle decide alone
 		m.c.r.Count("monitor_alarms_suppressed", 1)
@@ -362,6 +393,7 @@ func (m *monitors) checkTruncate(t *TapMsg, req *proto.TruncateRequest) {
 	if x := m.electionNote[req.Shard][req.Term]; x != "" {
 		note = " (" + x + ")"
 	}
+	note += m.electionFactsLocked(req.Shard, req.Term)
 	m.fail("C03", "committed-entries-truncated", "leader %s (term %d) tells follower %s to truncate shard %d to offset %d although the follower has applied entries up to offset %d as committed: %s; follower log %s%s",
 		t.Src, req.Term, t.Dst, req.Shard, cut, applied, why, termsOf(fv.Wal), note)
 }
@@ -447,7 +479,14 @@ func (m *monitors) tapSent(t *TapMsg) {
 			m.c.r.Count("fence_same_term_repeats", 1)
 			return
 		}
-		end := wal.SimLastAppended(v.Wal)
+		if f := m.fences[node][req.Shard]; f != nil && f.term == req.Term && f.inc == sn.EP.Inc {
+			// the same, with two NewTerm requests of one term in flight together (an election's
+			// straggler retry next to the "rejoin" retry): when the second was delivered the first
+			// had not been handled yet, so the sample above still showed the older term
+			m.c.r.Count("fence_same_term_repeats", 1)
+			return
+		}
+		end := logEnd(v.Wal)
 		m.c.r.Count("fence_replies_checked", 1)
 		if end != v.Wal.LastOffset() {
 			m.c.r.Count("fence_with_unsynced_tail", 1)
@@ -519,6 +558,17 @@ func (m *monitors) checkAck(t *TapMsg, ack *proto.Ack) {
 		m.fail("C03", "acked-entry-differs", "follower %s acknowledged offset %d to leader %s (term %d) but %s; leader log terms %s; follower log terms %s (follower head=%d synced=%d appended=%d)",
 			follower, ack.Offset, leader, sterm, msg, termsOf(lv.Wal), termsOf(fv.Wal), fv.HeadOffset, fv.Wal.LastOffset(), wal.SimLastAppended(fv.Wal))
 	}
+}
+
+// logEnd is the offset of the last entry the log holds (appended, synced or not); -1 for a log without
+// entries, also when it is merely positioned: a re-opened segment created for offset N whose first entry
+// was lost in a power cut reports last = N-1 and first = N.
+func logEnd(w wal.Wal) int64 {
+	end := wal.SimLastAppended(w)
+	if fo := w.FirstOffset(); fo == wal.InvalidOffset || fo > end {
+		return wal.InvalidOffset
+	}
+	return end
 }
 
 // compareLogs compares entries (after, upTo] of two logs, where both have them.
@@ -835,7 +885,7 @@ func (m *monitors) afterEvent() {
 			// C04 (ii): a fenced node's log does not grow until a term >= T touches it
 			if f := m.fences[name][s]; f != nil && !f.cleared && v.Wal != nil {
 				if sn := w.Node(name); sn != nil && sn.EP.Inc == f.inc {
-					if end := wal.SimLastAppended(v.Wal); end > f.headOff {
+					if end := logEnd(v.Wal); end > f.headOff {
 						m.fail("C04", "log-grew-after-fence", "node %s shard %d: log end moved from %d to %d after it answered NewTerm(term %d) with head %d, without any append/truncate/snapshot of a term >= %d",
 							name, s, f.headOff, end, f.term, f.reported.Offset, f.term)
 						f.cleared = true
@@ -888,8 +938,8 @@ func (m *monitors) checkContainment(shard int64, node string, v *shardView, when
 			if note == "" {
 				note = "fencing of that election not observed"
 			}
-			m.fail("C01", "acked-write-missing", "write %s=%s was acknowledged (by %s, log term %d) but is not in the log of %s, leader of shard %d in term %d, %s (%s)",
-				op.Key, op.Tag, op.Node, at, node, shard, v.Term, when, note)
+			m.fail("C01", "acked-write-missing", "write %s=%s was acknowledged (by %s, log term %d) but is not in the log of %s, leader of shard %d in term %d, %s (%s)%s",
+				op.Key, op.Tag, op.Node, at, node, shard, v.Term, when, note, m.electionFactsLocked(shard, v.Term))
 			return
 		}
 		if have[op.Tag] > 1 {
